@@ -23,8 +23,8 @@ func init() {
 			{Name: "parallel-aggregates@race", Quick: 420, Thorough: 20000, Run: c12Par},
 			{Name: "parallel-aggregates-64@race", Quick: 160, Thorough: 8000, Run: c12Par64},
 			{Name: "shared-pools@race", Quick: 8, Thorough: 100, Run: c12Pools},
-			{Name: "bsi-goroutine-paths-updates@race", Quick: 500, Thorough: 20000, Run: c19Histories},
-			{Name: "bsi-goroutine-paths-queries@race", Quick: 400, Thorough: 15000, Run: c20Queries},
+			{Name: "bsi-goroutine-paths-updates@race", Quick: 500, Thorough: 20000, Run: c12BSI(c19Histories)},
+			{Name: "bsi-goroutine-paths-queries@race", Quick: 400, Thorough: 15000, Run: c12BSI(c20Queries)},
 		},
 	})
 }
@@ -646,5 +646,121 @@ func c12Par64(c *Ctx) {
 			}
 		}
 		c.Distinct(mix(h, pseed))
+	}
+}
+
+// ---------------------------------------------------------------- BSI goroutine paths under C12's detectors
+
+// bsiGoroutines returns the (normalised) stacks of goroutines that are inside a bit-sliced index.
+func bsiGoroutines() string {
+	var out []string
+	for _, g := range strings.Split(allStacks(), "\n\n") {
+		if !(strings.Contains(g, "BitSliceIndexing/bsi.go") || strings.Contains(g, "roaring64/bsi64.go")) {
+			continue
+		}
+		lines := strings.Split(g, "\n")
+		hdr := lines[0]
+		if i := strings.Index(hdr, "["); i >= 0 {
+			hdr = hdr[i:]
+		}
+		if i := strings.Index(hdr, ","); i >= 0 {
+			hdr = hdr[:i] + "]"
+		}
+		var fr []string
+		for _, l := range lines[1:] {
+			if !strings.HasPrefix(l, "\t") {
+				fr = append(fr, strings.TrimSpace(l))
+			}
+		}
+		out = append(out, hdr+" "+strings.Join(fr, " <- "))
+	}
+	return strings.Join(out, "\n")
+}
+
+func allParked(dump string) bool {
+	for _, l := range strings.Split(dump, "\n") {
+		if l == "" {
+			continue
+		}
+		ok := false
+		for _, p := range []string{"[chan send", "[chan receive", "[select", "[semacquire", "[sync.WaitGroup.Wait", "[sync.Mutex.Lock", "[sync.Cond.Wait"} {
+			if strings.HasPrefix(l, p) {
+				ok = true
+			}
+		}
+		if !ok {
+			return false
+		}
+	}
+	return true
+}
+
+// c12BSI runs a C19 / C20 workload (whose oracles decide the results) under C12's own detectors: a GOMAXPROCS drawn per
+// case, a watchdog that confirms a blocked-forever state of the index's goroutines (all of them parked on channel /
+// WaitGroup / lock operations with identical stacks in two dumps 5 s apart), and a poll for goroutines of the index
+// that are still alive after the workload returned. The race detector watches the whole run.
+func c12BSI(inner func(c *Ctx)) func(c *Ctx) {
+	return func(c *Ctx) {
+		procs := []int{1, 2, 4, 16}[int(c.CaseSeed>>3)%4]
+		old := runtime.GOMAXPROCS(procs)
+		defer runtime.GOMAXPROCS(old)
+		c.Count(fmt.Sprintf("gomaxprocs_bsi_%d", procs))
+		done := make(chan struct{})
+		var pv any
+		go func() {
+			defer func() {
+				if r := recover(); r != nil {
+					pv = fmt.Sprintf("%v\n%s", r, trimStack(allStacks()))
+				}
+				close(done)
+			}()
+			inner(c)
+		}()
+		limit := time.Duration(atomic.LoadInt64(&watchdogLimitNs))
+		for {
+			select {
+			case <-done:
+			case <-time.After(limit):
+				d1 := bsiGoroutines()
+				time.Sleep(5 * time.Second)
+				select {
+				case <-done:
+				default:
+					d2 := bsiGoroutines()
+					if d1 == d2 && d1 != "" && allParked(d1) {
+						atomic.StoreInt64(&watchdogLimitNs, int64(4*time.Second))
+						c.Fail("BSI/deadlock", "a bit-sliced index call never returned (GOMAXPROCS=%d): all goroutines inside the index are parked with identical stacks in two dumps 5 s apart:\n%s", procs, d1)
+						return
+					}
+					if d1 == "" && d2 == "" {
+						continue // the workload is busy outside the index (model, harness): keep waiting
+					}
+					c.Note("BSI watchdog fired without confirmation: " + firstLines(d2, 6))
+					c.Count("inconclusive_watchdog")
+					<-done
+				}
+			}
+			break
+		}
+		if pv != nil {
+			c.Fail("harness/unexpected-panic", "panic escaped the BSI workload: %v", pv)
+			return
+		}
+		if c.Failed() {
+			return
+		}
+		// goroutines of the index still alive after every call returned
+		var leak string
+		for i := 0; i < 2000; i++ {
+			leak = bsiGoroutines()
+			if leak == "" {
+				break
+			}
+			time.Sleep(5 * time.Millisecond)
+		}
+		c.Eval(1)
+		if leak != "" {
+			c.Fail("BSI/goroutine-leak", "goroutines of the bit-sliced index still alive 10 s after the calls returned (GOMAXPROCS=%d):\n%s", procs, firstLines(leak, 30))
+		}
 	}
 }
